@@ -27,6 +27,8 @@ def WS (d : Params) : Prop := ∀ k v, lookup d k = some v → WSVal v
 
 def keys (d : Params) : List Text := d.map (·.1)
 
+theorem atomsOpt_none : atomsOpt none = [] := rfl
+
 theorem atomsOpt_shape (l : List Atom) : atomsOpt (shape l) = l := by
   match l with
   | [] => rfl
